@@ -59,13 +59,16 @@ def every_weight_tested(m, run):
     `exists w: |w - 1| > tol`.  Accepted shapes: early return inside a loop over the weights; any(<non-unit test>); not all(<unit test>)."""
     fi = m.func('convert.nurbs_to_bspline')
     src = params_of(fi.node)[0]
+    def dev(side):       # the deviation of a weight from one:  w - 1 (possibly under abs())
+        return any(isinstance(x, ast.BinOp) and isinstance(x.op, ast.Sub) and any(isinstance(y, ast.Constant) and y.value in (1, 1.0) for y in (x.left, x.right))
+                   for x in ast.walk(side))
     cmps = [c for c in ast.walk(fi.node) if isinstance(c, ast.Compare) and len(c.ops) == 1 and isinstance(c.ops[0], (ast.Gt, ast.GtE, ast.Lt, ast.LtE))
-            and any(isinstance(x, ast.BinOp) and isinstance(x.op, ast.Sub) and any(isinstance(y, ast.Constant) and y.value in (1, 1.0) for y in (x.left, x.right))
-                    for x in ast.walk(c.left))]
+            and (dev(c.left) != dev(c.comparators[0]))]
     if len(cmps) != 1:
         raise AnalysisError('%s: unit-weight test not found' % fi.key)
     c = cmps[0]
-    nonunit = isinstance(c.ops[0], (ast.Gt, ast.GtE))        # the comparison is true for a NON-unit weight
+    # the comparison is true for a NON-unit weight:  deviation > tol   or   tol < deviation
+    nonunit = isinstance(c.ops[0], (ast.Gt, ast.GtE)) if dev(c.left) else isinstance(c.ops[0], (ast.Lt, ast.LtE))
     quant, neg = None, False
     p, child = getattr(c, '_sa_parent', None), c
     while p is not None and p is not fi.node:
